@@ -1,5 +1,5 @@
 (* C20 — executable model of rip-tui's FrameStore (frame_store.rs) and of the TuiState::update fold
-   (state.rs:327-468, 470-742).  No proofs here (Proofs/TuiProofs.v). *)
+   (state.rs:327-468, 470-742; tools, tasks and jobs maps).  No proofs here (Proofs/TuiProofs.v). *)
 From RipV Require Import Base.Prelude.
 
 (* ---------- strings: lists of code points, UTF-8 widths ---------- *)
@@ -88,6 +88,8 @@ Inductive ekind :=
 | KTaskDelta (id : N) (stream : N) (c : str)  (* 0 stdout 1 stderr 2 pty *)
 | KCheckpointFailed
 | KProviderEvent (invalid_json errors resp_errors : bool)
+| KJobSpawned (id : N)
+| KJobEnded (id : N)
 | KOther.
 
 Record ev := { eseq : N; ets : N; ekd : ekind; eident : N }.
@@ -127,6 +129,7 @@ Record tui := {
   st_truncated : bool;
   st_tools : list (N * tool);
   st_tasks : list (N * task);
+  st_jobs : list (N * N);                  (* job id -> 0 running / 1 ended *)
   st_start : option N;
   st_first_out : option N;
   st_end : option N;
@@ -138,7 +141,7 @@ Record tui := {
 
 Definition tui_new (max_frames : nat) (max_out : N) (auto_follow : bool) : tui :=
   {| st_frames := fs_new max_frames; st_selected := None; st_auto_follow := auto_follow;
-     st_output := []; st_truncated := false; st_tools := []; st_tasks := [];
+     st_output := []; st_truncated := false; st_tools := []; st_tasks := []; st_jobs := [];
      st_start := None; st_first_out := None; st_end := None; st_last_err := None;
      st_last_ev := None; st_max_out := N.max max_out 1; st_max_prev := 8192 |}.
 
@@ -198,6 +201,14 @@ Definition upd_tasks (s : tui) (k : ekind) : list (N * task) :=
   | _ => m
   end.
 
+(* continuity_job_spawned / continuity_job_ended both insert (replace) the entry of that job id *)
+Definition upd_jobs (s : tui) (k : ekind) : list (N * N) :=
+  match k with
+  | KJobSpawned id => map_put id 0 (st_jobs s)
+  | KJobEnded id => map_put id 1 (st_jobs s)
+  | _ => st_jobs s
+  end.
+
 Definition update (s : tui) (e : ev) : tui :=
   let k := ekd e in
   let ot0 := (st_output s, st_truncated s) in
@@ -218,7 +229,7 @@ Definition update (s : tui) (e : ev) : tui :=
                     else match st_selected s with None => Some (eseq e) | o => o end;
      st_auto_follow := st_auto_follow s;
      st_output := fst ot; st_truncated := snd ot;
-     st_tools := upd_tools s k; st_tasks := upd_tasks s k;
+     st_tools := upd_tools s k; st_tasks := upd_tasks s k; st_jobs := upd_jobs s k;
      st_start := start; st_first_out := fo; st_end := en;
      st_last_err := if is_error_event k then Some (eseq e) else st_last_err s;
      st_last_ev := Some (ets e);
@@ -247,6 +258,7 @@ Definition observe (s : tui) (probes : list N) : list N :=
   ++ enc_str (st_output s) ++ enc_bool (st_truncated s)
   ++ nlen (st_tools s) :: concat (map enc_tool (st_tools s))
   ++ nlen (st_tasks s) :: concat (map enc_task (st_tasks s))
+  ++ nlen (st_jobs s) :: concat (map (fun kj => [fst kj; snd kj]) (st_jobs s))
   ++ enc_opt (st_start s) ++ enc_opt (st_first_out s) ++ enc_opt (st_end s)
   ++ enc_opt (st_last_err s) ++ enc_opt (st_last_ev s)
   ++ concat (map (fun q => enc_opt (option_map fid (fs_get_by_seq fs q))
